@@ -986,6 +986,13 @@ func (r *messageReader) Read(b []byte) (int, error) {
 				b = b[:c.readRemaining]
 			}
 			n, err := c.br.Read(b)
+			if n > 0 && err == io.EOF {
+				// The transport returned its last bytes together with io.EOF
+				// (allowed by io.Reader). Deliver the bytes; the end of the
+				// stream is reported by the next read, where it is judged
+				// against readRemaining / readFinal.
+				err = nil
+			}
 			c.readErr = hideTempErr(err)
 			if c.isServer {
 				c.readMaskPos = maskBytes(c.readMaskKey, c.readMaskPos, b[:n])
